@@ -43,9 +43,36 @@ fn package_v(p: &PackageDescriptor) -> V {
 }
 
 // ---------------------------------------------------------------- the real builders
-/// writes the document of one case to `path`; returns the own-reader flag (`1`, `0`, `-`)
-fn write_case(f: &[String], path: &Path) -> String {
-    match f[0].as_str() {
+/// What the target path holds before the real write (`pre=` field). `t` is the text the same write produces on a fresh path.
+fn pre_content(kind: &str, pre: &str, t: &[u8]) -> Option<Vec<u8>> {
+    Some(match pre {
+        "fresh" => return None,
+        "empty" => vec![],
+        "same" => t.to_vec(),
+        "shorter" => t[..t.len() / 2].to_vec(),
+        // longer than any document the generators produce, and not TOML
+        "garbage" => { let mut g = t.to_vec(); while g.len() < t.len() + 65536 { g.extend_from_slice(b"!!!! not = [[ toml\n\"\"\" garbage ]\n"); } g }
+        // a longer valid document of the same type: the same text followed by further keys
+        "longer" => {
+            let extra: &str = match kind {
+                "launch" => "\n[[labels]]\nkey = \"stale\"\nvalue = \"left over from the previous file\"\n\n[[slices]]\npaths = [\"stale/**\"]\n",
+                "plan" => "\n[[or]]\n\n[[or.provides]]\nname = \"stale\"\n",
+                "layer" | "store" => "\n[metadata.zz_stale_from_previous_file]\nstale = true\nlist = [1, 2, 3]\n",
+                "package" => "\n[[dependencies]]\nuri = \"stale/from/previous/file\"\n",
+                _ => panic!("kind"),
+            };
+            let mut l = t.to_vec(); l.extend_from_slice(extra.as_bytes()); l
+        }
+        _ => panic!("pre"),
+    })
+}
+
+/// writes the document of one case to `path` with the real writer — first on the fresh path, then (unless `pre=fresh`)
+/// once more over a pre-existing file at the same path; returns the own-reader flag (`1`, `0`, `-`)
+fn write_case(f0: &[String], path: &Path) -> String {
+    let (pre, f): (&str, &[String]) = match f0.last().and_then(|l| l.strip_prefix("pre=")) { Some(p) => (p, &f0[..f0.len() - 1]), None => ("fresh", f0) };
+    // (the write, the own-reader check)
+    let (write, rt): (Box<dyn Fn(&Path)>, Box<dyn Fn(&Path) -> String>) = match f[0].as_str() {
         "launch" => {
             let mut b = LaunchBuilder::new();
             for op in split_list(&f[1], "|") {
@@ -72,52 +99,68 @@ fn write_case(f: &[String], path: &Path) -> String {
                 }
             }
             let launch = b.build();
-            write_toml_file(&launch, path).expect("write");
-            match read_toml_file::<Launch>(path) { Ok(back) => u8::from(launch_v(&back).render() == launch_v(&launch).render()).to_string(), Err(_) => "0".into() }
+            let l2 = launch.clone();
+            (Box::new(move |p| write_toml_file(&launch, p).expect("write")),
+             Box::new(move |p| match read_toml_file::<Launch>(p) { Ok(back) => u8::from(launch_v(&back).render() == launch_v(&l2).render()).to_string(), Err(_) => "0".into() }))
         }
         "plan" => {
-            let mut b = BuildPlanBuilder::new();
-            for op in split_list(&f[1], "|") {
-                let p: Vec<&str> = op.split('~').collect();
-                b = match p[0] {
-                    "p" => b.provides(ux(p[1])),
-                    "r" => { let mut r = Require::new(ux(p[1])); r.metadata(table_of(p[2])).expect("metadata"); b.requires(r) }
-                    "o" => b.or(),
-                    _ => panic!("plan op"),
-                };
-            }
-            write_toml_file(&b.build(), path).expect("write");
-            "-".into()
+            let ops: Vec<String> = split_list(&f[1], "|").iter().map(|s| s.to_string()).collect();
+            (Box::new(move |path| {
+                let mut b = BuildPlanBuilder::new();
+                for op in &ops {
+                    let p: Vec<&str> = op.split('~').collect();
+                    b = match p[0] {
+                        "p" => b.provides(ux(p[1])),
+                        "r" => { let mut r = Require::new(ux(p[1])); r.metadata(table_of(p[2])).expect("metadata"); b.requires(r) }
+                        "o" => b.or(),
+                        _ => panic!("plan op"),
+                    };
+                }
+                write_toml_file(&b.build(), path).expect("write")
+            }), Box::new(|_| "-".into()))
         }
         "layer" => {
             let types = if f[1] == "-" { None } else { let b: Vec<bool> = f[1].chars().map(|c| c == '1').collect(); Some(LayerTypes { launch: b[0], build: b[1], cache: b[2] }) };
             let metadata: GenericMetadata = if f[2] == "-" { None } else { Some(table_of(&f[2])) };
-            let v = LayerContentMetadata { types, metadata };
-            write_toml_file(&v, path).expect("write");
-            match read_toml_file::<LayerContentMetadata<GenericMetadata>>(path) { Ok(back) => u8::from(back == v && layer_v(&back).render() == layer_v(&v).render()).to_string(), Err(_) => "0".into() }
+            let v = LayerContentMetadata { types, metadata: metadata.clone() };
+            let v2 = LayerContentMetadata { types, metadata };
+            (Box::new(move |p| write_toml_file(&v, p).expect("write")),
+             Box::new(move |p| match read_toml_file::<LayerContentMetadata<GenericMetadata>>(p) { Ok(back) => u8::from(back == v2 && layer_v(&back).render() == layer_v(&v2).render()).to_string(), Err(_) => "0".into() }))
         }
         "store" => {
             let v = Store { metadata: table_of(&f[1]) };
-            write_toml_file(&v, path).expect("write");
-            match read_toml_file::<Store>(path) { Ok(back) => u8::from(back.metadata == v.metadata).to_string(), Err(_) => "0".into() }
+            let v2 = v.clone();
+            (Box::new(move |p| write_toml_file(&v, p).expect("write")),
+             Box::new(move |p| match read_toml_file::<Store>(p) { Ok(back) => u8::from(back.metadata == v2.metadata).to_string(), Err(_) => "0".into() }))
         }
         "package" => {
             let mut v = PackageDescriptor::default();
             v.buildpack = PackageDescriptorBuildpackReference::try_from(ux(&f[1]).as_str()).expect("uri");
             v.dependencies = uxs(&f[2]).iter().map(|d| PackageDescriptorDependency::try_from(d.as_str()).expect("uri")).collect();
             match f[3].as_str() { "-" => {} "linux" => v.platform = Platform { os: PlatformOs::Linux }, "windows" => v.platform = Platform { os: PlatformOs::Windows }, _ => panic!("os") }
-            write_toml_file(&v, path).expect("write");
-            match read_toml_file::<PackageDescriptor>(path) { Ok(back) => u8::from(package_v(&back).render() == package_v(&v).render()).to_string(), Err(_) => "0".into() }
+            let v2 = v.clone();
+            (Box::new(move |p| write_toml_file(&v, p).expect("write")),
+             Box::new(move |p| match read_toml_file::<PackageDescriptor>(p) { Ok(back) => u8::from(package_v(&back).render() == package_v(&v2).render()).to_string(), Err(_) => "0".into() }))
         }
         "execd" => {
             // a helper process writes to its fd 3, which the shell has redirected into the file
             let exe = std::env::current_exe().unwrap();
-            let st = std::process::Command::new("sh").arg("-c").arg("exec \"$0\" execd-helper \"$1\" 3>\"$OUT\"").arg(&exe).arg(&f[1]).env("OUT", path).status().expect("spawn");
-            if !st.success() { panic!("helper failed"); }
-            "-".into()
+            let pairs = f[1].clone();
+            (Box::new(move |path| {
+                let st = std::process::Command::new("sh").arg("-c").arg("exec \"$0\" execd-helper \"$1\" 3>\"$OUT\"").arg(&exe).arg(&pairs).env("OUT", path).status().expect("spawn");
+                if !st.success() { panic!("helper failed"); }
+            }), Box::new(|_| "-".into()))
         }
         _ => panic!("kind"),
+    };
+    write(path);
+    if pre != "fresh" {
+        let t = std::fs::read(path).expect("read back");
+        let before = pre_content(&f[0], pre, &t).expect("pre");
+        std::fs::write(path, before).expect("prepare");
+        write(path);
     }
+    rt(path)
 }
 
 fn execd_helper(pairs: &str) {
@@ -132,7 +175,13 @@ const STRS: &[&str] = &["", "a", "web", "plain text", "with \"quotes\"", "back\\
 const PTYPES: &[&str] = &["web", "worker", "w.1", "a_b-c", "X", "0", "release"];
 const KEYS: &[&str] = &["PATH", "FOO", "foo", "FOO_BAR", "a-b", "0", "x1"];
 const MKEYS: &[&str] = &["k", "key", "", "a.b", "with space", "ünï", "\"q\"", "1", "true", "k\nl", "'", "#"];
-const URIS: &[&str] = &[".", "libcnb:foo/bar", "../relative/dir", "docker://docker.io/heroku/procfile-cnb:2.0.0", "https://example.tld/a%20b?q=1#f", "/abs/path", "urn:cnb:registry:heroku/java", "a/b.cnb"];
+/// valid URI references delivered verbatim by the unchanged code: normal forms, and spellings that are NOT in RFC 3986 normal form
+/// (upper-case host / unregistered scheme, dot segments, percent-encoded unreserved characters, trailing dot in the host)
+const URIS: &[&str] = &[".", "libcnb:foo/bar", "../relative/dir", "docker://docker.io/heroku/procfile-cnb:2.0.0", "https://example.tld/a%20b?q=1#f", "/abs/path", "urn:cnb:registry:heroku/java", "a/b.cnb",
+    "docker://Docker.IO/heroku/example:1.2.3", "DOCKER://docker.io/x", "LIBCNB:foo/bar", "https://h/releases/./x.cnb", "file:///workspace/packaged/../buildpacks/meta",
+    "https://h/%7Eteam/node%2ejs.cnb", "https://h/%7eteam", "https://Example.TLD./a", "../a/./b/../c", "https://user:PW@Host/x"];
+/// valid, but re-printed by uriparse when the descriptor is constructed (tagged minority)
+const URIS_RESPELLED: &[&str] = &["HTTPS://Example.TLD/a", "FILE:///x", "https://h:0080/x", "https://h:/x", "docker://docker.io", "https://h?q", "x://h:"];
 
 fn rstr(r: &mut Rng) -> String { r.pick(STRS).to_string() }
 fn rstrs(r: &mut Rng, max: u64) -> Vec<String> { (0..r.below(max + 1)).map(|_| rstr(r)).collect() }
@@ -179,7 +228,22 @@ fn plan_case(ops: &[String], kind: &str) -> Case {
     case(vec!["plan".into(), join("|", ops)], kind, vec![("ors", ors.min(9).to_string()), ("empty_groups", empty.min(9).to_string()), ("metadata", u8::from(md).to_string())], ors >= 1 || md)
 }
 
-fn generate(tier: &str, seed: u64, emit: &mut dyn FnMut(Case)) {
+const PRES: &[&str] = &["garbage", "longer", "same", "shorter", "empty"];
+
+/// every document is written on a fresh path and also over each kind of pre-existing file (exec.d output goes to fd 3, not to a path)
+fn generate(tier: &str, seed: u64, emit0: &mut dyn FnMut(Case)) {
+    let mut emit = |c: Case| {
+        let is_file = c.fields[0] != "execd";
+        let variants: Vec<&str> = if is_file { std::iter::once("fresh").chain(PRES.iter().copied()).collect() } else { vec!["fresh"] };
+        for pre in variants {
+            let mut fields = c.fields.clone();
+            fields.push(format!("pre={pre}"));
+            let mut tags = c.tags.clone();
+            tags.push(("pre".to_string(), pre.to_string()));
+            emit0(Case { fields, tags, nontrivial: c.nontrivial });
+        }
+    };
+    let emit: &mut dyn FnMut(Case) = &mut emit;
     let thorough = tier == "thorough";
     // ---- bounded-exhaustive: every BuildPlanBuilder call sequence over {provides a, requires b, or} up to length 5 (quick) / 7
     let alphabet = [format!("p~{}", xs("a")), format!("r~{}~T0", xs("b")), "o".to_string()];
@@ -201,6 +265,11 @@ fn generate(tier: &str, seed: u64, emit: &mut dyn FnMut(Case)) {
         emit(case(vec!["plan".into(), format!("p~{x}|r~{x}~{}", to_wire(&Value::Table([(s.to_string(), Value::String(s.to_string()))].into_iter().collect())))], "plan-str", vec![], true));
         emit(case(vec!["execd".into(), format!("{}={x}", xs("KEY"))], "execd-str", vec![], true));
         emit(case(vec!["store".into(), to_wire(&Value::Table([(s.to_string(), Value::Array(vec![Value::String(s.to_string())]))].into_iter().collect()))], "store-str", vec![], true));
+    }
+    // ---- every URI spelling once as buildpack uri and as a dependency
+    for u in URIS.iter().chain(URIS_RESPELLED.iter()) {
+        let class = if URIS_RESPELLED.contains(u) { "respelled" } else { "verbatim" };
+        emit(case(vec!["package".into(), xs(u), lst(&[u.to_string(), ".".to_string()]), "-".into()], "package-uri", vec![("uri_class", class.into())], true));
     }
     // ---- layer types: all 9 combinations x metadata none / empty / non-empty
     for ty in ["-", "000", "001", "010", "011", "100", "101", "110", "111"] {
@@ -264,9 +333,12 @@ fn generate(tier: &str, seed: u64, emit: &mut dyn FnMut(Case)) {
                 emit(case(vec!["execd".into(), join(",", &pairs)], "execd", vec![("pairs", pairs.len().to_string()), ("duplicate_key", u8::from(dup).to_string())], !pairs.is_empty()));
             }
             _ => {
-                let deps: Vec<String> = (0..r.below(4)).map(|_| r.pick(URIS).to_string()).collect();
+                let respelled = r.chance(1, 8);
+                let pick = |r: &mut Rng| if respelled && r.chance(1, 2) { r.pick(URIS_RESPELLED).to_string() } else { r.pick(URIS).to_string() };
+                let deps: Vec<String> = (0..r.below(4)).map(|_| pick(&mut r)).collect();
+                let bp = pick(&mut r);
                 let os = *r.pick(&["-", "linux", "windows"]);
-                emit(case(vec!["package".into(), xs(*r.pick(URIS)), lst(&deps), os.into()], "package", vec![("deps", deps.len().to_string()), ("os", os.into())], true));
+                emit(case(vec!["package".into(), xs(&bp), lst(&deps), os.into()], "package", vec![("deps", deps.len().to_string()), ("os", os.into()), ("uri_class", if respelled { "respelled" } else { "verbatim" }.into())], true));
             }
         }
     }
